@@ -274,7 +274,10 @@ class Reader:
                     elif ident < prev:
                         self.f.add('dir-order', '%s: directory %r: %r sorted after %r' % (treename, path, ident[:40], prev[:40]))
                     elif enc == 'utf-8' and not ecma_order_ok(prev, ident):
-                        self.f.add('dir-order-ecma', '%s: directory %r: %r before %r is byte order but not ECMA-119 9.3 order' % (treename, path, prev[:40], ident[:40]))
+                        only_version = prev.rpartition(b';')[0] == ident.rpartition(b';')[0] and b';' in prev and b';' in ident
+                        self.f.add('dir-order-ecma-version' if only_version else 'dir-order-ecma',
+                                   '%s: directory %r: %r before %r is byte order but not ECMA-119 9.3 order%s'
+                                   % (treename, path, prev[:40], ident[:40], ' (versions of one file go in descending order)' if only_version else ''))
                 prev = ident
                 try:
                     name = ident.decode(enc)
